@@ -760,6 +760,86 @@ def expected_value_(value):
 
 INF_CAP = 40
 
+# interleaved observation of an original and its copy: the value is held in x, a copy (made by the dup element) in y;
+# both are then looked at in turns, partly and fully; at the end both must still denote the value
+ILV_VALUES = ["3ɾ", "5ɾ", "⟨3|1|2⟩ƛ2*;", "4ɾƛ:*;", "⟨1|2|3|4⟩", "3ɾvɾ", "6ɾ'2%;"]
+ILV_OBS = ["h", "t", "L", "1i", "2Ẏ", "0i", "Ṙ", "∑"]
+
+
+def ilv_case(item):
+    return own_alarm(ilv_case_, item, 3.0)
+
+
+def ilv_case_(item):
+    vi, pre, copy_kind, seq = item
+    value = ILV_VALUES[vi]
+    want = expected_value(value)
+    make_copy = {"dup": "←x :_ →y ", "dup-keep-top": "←x :$_ →y ", "triplicate": "←x D_ _ →y "}[copy_kind]
+
+    def go(sq):
+        ns = dict(_ns())
+        stack = []
+        ctx = fresh_ctx(stack)
+        ns.update(stack=stack, ctx=ctx)
+        err = None
+        with contextlib.redirect_stdout(io.StringIO()):
+            try:
+                exec(code_of(value + "→x " + "".join(f"←x {o}_ " for o in pre) + make_copy), ns)
+                for who, o in sq:
+                    exec(code_of(f"←{who} {o}_ "), ns)
+            except _Late:
+                raise
+            except BaseException as e:  # noqa: BLE001
+                err = type(e).__name__
+            del ns["stack"][:]
+            exec(code_of("←x ←y "), ns)
+        return [canon(v) for v in ns["stack"][-2:]], err
+    got, err = go(seq)
+    if err is None and all(g == want for g in got):
+        return ("ok", None, None)
+    if err is not None:
+        return ("raised", err, None)
+    blame = seq
+    for n in range(1, len(seq)):
+        g2, e2 = go(seq[:n])
+        if e2 is None and not all(g == want for g in g2):
+            blame = seq[:n]
+            break
+    prog = value + "→x " + "".join(f"←x {o}_ " for o in pre) + make_copy + "".join(f"←{w} {o}_ " for w, o in blame) + "←x ←y "
+    return ("bad", None, {"program": prog, "want": show(want), "got": [show(g) for g in got]})
+
+
+def interleaved(env):
+    rng = env.rng
+    items = []
+    toks = [(w, o) for w in "xy" for o in ILV_OBS]
+    for vi in range(len(ILV_VALUES)):
+        for ck in ("dup", "dup-keep-top", "triplicate"):
+            for pre in [()] + [(o,) for o in ILV_OBS[:5]]:
+                for a in toks:
+                    for b in toks:
+                        if a[0] != b[0] and rng.random() < (0.25 if not env.thorough else 1.0):
+                            items.append((vi, pre, ck, (a, b)))
+                for _ in range(env.budget(6, 60)):
+                    items.append((vi, pre, ck, tuple(rng.choice(toks) for _ in range(rng.choice([3, 3, 4, 5])))))
+    res = V.pmap(ilv_case, items, timeout=900.0, procs=min(V.NPROC, 8), chunksize=64)
+    stat = collections.Counter()
+    bad = []
+    for it, (st, val) in zip(items, res):
+        if st != "ok":
+            stat["harness"] += 1
+            continue
+        stat[val[0]] += 1
+        if val[0] == "bad":
+            bad.append(val[2])
+    bad.sort(key=lambda d: len(d["program"]))
+    for d in bad[:3]:
+        env.fail({"program": d["program"], "form": "original and copy observed in turns"},
+                 f"copy program {d['program']}: both references should be {d['want']}, they are {', '.join(d['got'])} ({len(bad)} failing programs)",
+                 cls="C10:interleaved-copy")
+    env.count(len(items), (f"ilv:{it}" for it in items))
+    env.note("part2_interleaved", {"programs": len(items), "values": ILV_VALUES, "observations": ILV_OBS, "outcomes": dict(stat)})
+
 
 def inf_copy_case(item):
     return own_alarm(inf_copy_case_, item, 1.5)
@@ -1169,6 +1249,7 @@ def run(env):
     f1 = part1(env, E, static)
     f1b = part1b(env, an) if an.get("flagged_functions") else {}
     f2 = part2(env, E, static)
+    interleaved(env)
     f2b = part2b(env, an)
     part3(env)
     # verdict per statically flagged element / function
